@@ -203,6 +203,8 @@ func checkC15(c *Ctx) {
 	c.Rule("R15.4", "one capture shared by caller and stack; attached under exactly addCaller / addStack; slog: stack iff record.Level >= addStackAt, caller from record.PC", 3)
 	c.Rule("R15.7", "Config: caller and stack annotations are installed exactly as configured (DisableStacktrace wins over Development)", 1)
 	c15ConfigAnnotations(c, "R15.7")
+	c.Rule("R15.8", "Config.Build: the caller's options take effect after the configuration's (a caller's WithCaller / AddStacktrace / AddCallerSkip is not overridden by the annotations derived from the Config)", 1)
+	c10BuildOptionOrder(c, "R15.8")
 	c.Rule("R15.5", "whole stack: growth loop re-captures with the same skip while full; only the final frame is dropped", 3)
 
 	zp := ZapPath
